@@ -258,7 +258,10 @@ class Gen:
         a = self.P["areas"][str(cc)]
         F = dict(self.P["frames"]["Response"]["fields"])
         if rc != 0:
-            t = 0x8001 if tag is None else tag
+            if tag is None:
+                # any structure tag may head a failed response (e.g. RSP_COMMAND for TPM_RC_BAD_TAG); mostly NO_SESSIONS
+                tag = 0x8001 if self.rng.random() < 0.7 else self.pick(F["tag"])
+            t = tag
             head = self.enc(F["tag"], t) + self.enc(F["responseSize"], 10) + self.enc(F["responseCode"], rc)
             evs = [
                 (path, "Response", None),
@@ -271,6 +274,11 @@ class Gen:
             enc = False
         opaque = bool(enc and self.can_encrypt(a["response_params"]))
         t = 0x8002 if (sessions or session_tag) else 0x8001
+        if t == 0x8001 and self.rng.random() < 0.05:
+            # every tag other than SESSIONS means "no session area"
+            t = self.pick(F["tag"])
+            if t == 0x8002:
+                t = 0x8001
         hb, hev = self.build(a["response_handles"], path + (R.seg("handles"),))
         pb, pev = self.build(a["response_params"], path + (R.seg("parameters"),), enc=opaque)
         body, bev = hb, hev
@@ -306,7 +314,7 @@ class Gen:
 
     def random_config(self):
         r = self.rng
-        s = r.choice((0, 0, 1, 1, 2, 3))
+        s = r.choice((0, 0, 1, 1, 2, 3, 3, 5))
         return dict(
             sessions=s,
             session_tag=bool(s == 0 and r.random() < 0.15),
